@@ -142,7 +142,9 @@ CHECKS = {
                 "lock and returns after one step when the lock is held, nothing waits for a suspended holder, and a snapshot's loads are "
                 "bounded by the completed writes.",
         "design_ref": "DESIGN.md section 6, C18",
-        "note": ATOMIC_NOTE + " nfs_voucher::get_base_time_unlocked is a thin wrapper over snapshot() and is driven by the C19 engine, not parked.",
+        "note": ATOMIC_NOTE + " nfs_voucher::get_base_time_unlocked is a thin wrapper over snapshot(); it is not parked, but the nfs engine "
+                "(also run by this check) calls it with `now` values up to a day ahead and reports it under C18 if it ever changes the base time "
+                "(i.e. goes through the blocking update path).",
     },
     "C14": {
         "engine": "vt",
